@@ -30,8 +30,21 @@ let cmd_bwpyseq prog depth goals =
       try cmd_bw bw_faithful g prog depth with Model_panic -> "PANIC")
       (String.split_on_char ',' goals))
 
+(* the decidable guards of the guarded global theorem C04_bw_refuted_sound_guarded, evaluated on
+   the model with the F1 branch repaired (sw_nodrop) and the faithful table size *)
+let cmd_bwguard goal prog depth =
+  let comp = comp_of_text prog in
+  let sw = { sw_nodrop = true; sw_fullparams = false } in
+  let gc = match goal with
+    | "halt" -> halt_configs sw | "blank" -> erase_configs | _ -> zero_reflexive_configs in
+  let ((r, _fired), unjust) = cant_reach_i sw comp (n_of_string depth) gc in
+  let box_ok = (cp_params_full comp = cp_params comp) in
+  let a0 = (match cp_get comp (N0, N0) with Some _ -> true | None -> false) in
+  string_of_bw (unwrap r) ^ "|" ^ b2s box_ok ^ "|" ^ b2s (not unjust) ^ "|" ^ b2s a0
+
 let dispatch (fields : string list) : string option =
   match fields with
+  | ["bwguard"; goal; prog; depth] -> Some (cmd_bwguard goal prog depth)
   | ["bwpyseq"; prog; depth; goals] -> Some (cmd_bwpyseq prog depth goals)
   | ["bw"; goal; prog; depth] -> Some (cmd_bw bw_faithful goal prog depth)
   | ["bw_nodrop"; goal; prog; depth] ->
